@@ -484,6 +484,25 @@ var c18Porc = porcupine.Model{
 				return true, s // deleting an absent user may be refused; nothing changes
 			}
 			return true, "absent"
+		case "UPLOAD":
+			if s == "absent" {
+				return true, s // usage of a user that no longer exists changes nothing
+			}
+			cur := map[string]int64{}
+			for _, kv := range strings.Split(s, ";") {
+				if kv == "" {
+					continue
+				}
+				p := strings.SplitN(kv, "=", 2)
+				var v int64
+				fmt.Sscan(p[1], &v)
+				cur[p[0]] = v
+			}
+			var a, b int64
+			fmt.Sscanf(i.Set, "%d;%d", &a, &b)
+			cur["UpCredit"] -= a
+			cur["DownCredit"] -= b
+			return true, canon(cur)
 		case "POST":
 			if o.Code >= 300 {
 				return true, s
@@ -544,7 +563,18 @@ func c18Concurrent(r *vk.Reporter, rng *mrand.Rand, clients, per int) (kind, det
 				in := c18In{UID: ui}
 				var out c18Out
 				call := clock.Add(1)
-				switch lr.IntN(5) {
+				switch lr.IntN(6) {
+				case 5: // a usage upload for this user, as the server's periodic round does (not through HTTP)
+					a, b := int64(lr.IntN(4)), int64(lr.IntN(4))
+					in.Op, in.Set = "UPLOAD", fmt.Sprintf("%d;%d", a, b)
+					func() {
+						defer func() {
+							if p := recover(); p != nil {
+								panicMsg.Store(fmt.Sprint(p))
+							}
+						}()
+						e.mgr.UploadStatus([]StatusUpdate{{UID: uids[ui], Active: true, NumSession: 1, UpUsage: a, DownUsage: b, Timestamp: time.Now().Unix()}})
+					}()
 				case 0, 1:
 					set := map[string]int64{}
 					for _, f := range c18Fields {
